@@ -1407,6 +1407,11 @@ func (cs *ConsensusState) addProposalBlockPart(height int64, part *types.Part, v
 		var n int
 		var err error
 		cs.ProposalBlock = wire.ReadBinary(&types.Block{}, cs.ProposalBlockParts.GetReader(), types.MaxBlockSize, &n, &err).(*types.Block)
+		if err != nil {
+			// the parts do not decode to a block: forget the half-filled value
+			cs.ProposalBlock = nil
+			return true, err
+		}
 		// NOTE: it's possible to receive complete proposal blocks for future rounds without having the proposal
 		//log.Debug("Received complete proposal block", zap.Int64("height", cs.ProposalBlock.Height), zap.String("hash", gcmn.Fmt("%X", cs.ProposalBlock.Hash())))
 		if cs.Step == RoundStepPropose && cs.isProposalComplete() {
